@@ -59,10 +59,13 @@ COST_SHAPES = [
      '(uc.USeq(a) if k else uc.UMap(d))', 3, []),
     ('Tuple_seq_map', 'Tuple[Sequence[int], Mapping[int, int]]', [('a', LOI), ('d', 'Dict[int, Optional[int]]')],
      '(uc.USeq(a), uc.UMap(d))', 3, []),
+    # a conforming container next to the culprit: the explanation visits the sibling too
+    ('Tuple_seq_int', 'Tuple[Sequence[int], int]', [('a', LOI), ('b', 'Optional[int]')], '(uc.USeq(a), b)', 1, []),
+    ('Tuple_int_map', 'Tuple[int, Mapping[int, int]]', [('b', 'Optional[int]'), ('d', 'Dict[int, Optional[int]]')], '(b, uc.UMap(d))', 2, []),
     ('Seq_Seq_int', 'Sequence[Sequence[int]]', [('a', 'List[List[Optional[int]]]')], 'uc.USeq([uc.USeq(v) for v in a])', 2,
      ['len(a) <= 3', 'all(len(v) <= 2 for v in a)']),
 ]
-WARM = {LOI: ['[1]', '[None]', '[]', '[1, None]'], 'Dict[int, Optional[int]]': ['{1: 1}', '{1: None}', '{}'],
+WARM = {'Optional[int]': ['1', 'None'], LOI: ['[1]', '[None]', '[]', '[1, None]'], 'Dict[int, Optional[int]]': ['{1: 1}', '{1: None}', '{}'],
         'Dict[Optional[int], int]': ['{1: 1}', '{None: 1}', '{}'], 'bool': ['True', 'False'],
         'List[List[Optional[int]]]': ['[[1]]', '[[None]]', '[]']}
 
@@ -86,8 +89,8 @@ def cost_spec(shape, confkw, tag):
             f'try:\n    res = run_checks(x)\nfinally:\n    PIN.value = None\n'
             f'if isinstance(res, str):\n    LAST[0] = res\n    return False\n'
             f'reads = len(uc.READS)\nrejects = res.count("reject")\n'
-            f'if reads > 2 * K * len(res) :\n'
-            f'    LAST[0] = "%d container reads for 2 checks, the hint allows %d per check and as many again per explanation" % (reads, K)\n    return False\n'
+            f'if reads > K * (len(res) + rejects):\n'
+            f'    LAST[0] = "%d container reads for 2 checks (%d rejected), the hint allows %d per check and as many again per explanation" % (reads, rejects, K)\n    return False\n'
             f'if K == 0 and reads:\n    LAST[0] = "a non-collection iterable was read"\n    return False\n'
             f'if shim.REPR_CALLS[0] > 6 * rejects:\n'
             f'    LAST[0] = "%d object representations for %d rejections" % (shim.REPR_CALLS[0], rejects)\n    return False\n'
@@ -98,11 +101,14 @@ def cost_spec(shape, confkw, tag):
 
 def specs_c09(tier, seed=0):
     out = []
-    shapes = COST_SHAPES if tier != 'quick' else [COST_SHAPES[i] for i in (0, 4, 7)]
-    for s in shapes:
+    byname = {s[0]: s for s in COST_SHAPES}
+    if tier == 'quick':
+        return [cost_spec(byname['Sequence_int'], {}, 'default'), cost_spec(byname['Mapping_int_int'], {}, 'default'),
+                cost_spec(byname['Iterable_noncollection'], {}, 'default'),
+                cost_spec(byname['Tuple_seq_int'], {'is_random': False}, 'nonrandom')]
+    for s in COST_SHAPES:
         out.append(cost_spec(s, {}, 'default'))
-        if tier != 'quick':
-            out.append(cost_spec(s, {'is_random': False}, 'nonrandom'))
+        out.append(cost_spec(s, {'is_random': False}, 'nonrandom'))
     return out
 
 
